@@ -6,5 +6,7 @@ export CARGO_NET_OFFLINE=true
 mkdir -p .cache
 [ -f harness/Cargo.lock ] || cp /repo/Cargo.lock harness/Cargo.lock
 (cd harness && cargo build --release --offline --target-dir /verif/.cache/target 2>&1 | tail -3)
+# variant build used by the C06 stream (rayon code paths); prebuilt so that the quick check stays quick
+(cd harness && cargo build --release --offline --features concurrent --target-dir /verif/.cache/target-concurrent 2>&1 | tail -1)
 (cd lean && lake build 2>&1 | tail -3)
 echo setup-done
